@@ -58,9 +58,10 @@ func VerifSetMaxDecompressedSize(n int64) int64 {
 	return old
 }
 
-// verifBusyYield is called on code paths that busy-wait on real time (the share
+// verifBusyYield is called on code paths that busy-wait on real time: the share
 // fetch loop re-polls without sleeping while its one second ack timer runs and
-// there is nothing to fetch). Under a testing/synctest bubble CPU time costs no
+// there is nothing to fetch; the sink's drain loop retries at once when loading
+// the producer ID fails fast (for example every dial is refused). Under a testing/synctest bubble CPU time costs no
 // virtual time, so such a bounded busy-wait would never end; with the verif tag
 // each iteration costs one millisecond instead.
 func verifBusyYield() { time.Sleep(time.Millisecond) }
